@@ -15,15 +15,13 @@ Inductive cls :=
 | CNotOrArity      (* NOT / OR take one token plus at most one argument *)
 | CUnknownKey      (* unknown keys are skipped, the reply is OK *)
 | CTextAtom        (* header / body / sent-date evaluation differs from the field semantics on this message *)
-| CUidSingle       (* UID SEARCH UID n (no colon) returns nothing *)
-| CUidIgnoresKeys (* UID SEARCH evaluates nothing but ALL and UID a:b *)
 | CQuotedSpace.   (* the command line is split with strings.Fields and re-joined: runs of blanks / tabs inside a quoted string collapse *)
 
 Definition cls_eqb (a b : cls) : bool :=
   match a, b with
   | CCommaSet, CCommaSet | CStar, CStar | CReversedRange, CReversedRange | CParenGroup, CParenGroup
   | CNotOrArity, CNotOrArity | CUnknownKey, CUnknownKey
-  | CTextAtom, CTextAtom | CUidSingle, CUidSingle | CUidIgnoresKeys, CUidIgnoresKeys | CQuotedSpace, CQuotedSpace => true
+  | CTextAtom, CTextAtom | CQuotedSpace, CQuotedSpace => true
   | _, _ => false
   end.
 
@@ -136,23 +134,8 @@ Fixpoint classify (ks : list key) (mb : list smsg) : option cls :=
   | k :: ks' => match key_class k mb with None => classify ks' mb | c => c end
   end.
 
-(** UID SEARCH (uid.handleUIDSearch) *)
-Definition classify_uid (ks : list key) : option cls :=
-  match ks with
-  | [KAll] => None
-  | [KUid s] =>
-      match s with
-      | [SOne _] => Some CUidSingle
-      | [SRange (SNum a) (SNum b)] => if digits_val a 0 <=? digits_val b 0 then None else Some CReversedRange
-      | [_] => Some CStar
-      | _ => Some CCommaSet
-      end
-  | _ => Some CUidIgnoresKeys
-  end.
-
 (** the command line level (connection.go: parts := strings.Fields(line), HandleSearch: strings.Join(parts[start:], " ")) *)
 Definition fields_stable (s : str) : bool := str_eqb (join (fields s) [sp]) s.
 Definition classify_line (ks : list key) (mb : list smsg) : option cls :=
   if fields_stable (print_prog ks) then classify ks mb else Some CQuotedSpace.
-Definition classify_uid_line (ks : list key) : option cls :=
-  if fields_stable (print_prog ks) then classify_uid ks else Some CQuotedSpace.
+(** UID SEARCH runs the same evaluator: the same classes *)
